@@ -523,3 +523,88 @@ def _cbind2_expect(d, o1, o2):
 
 
 frame_driver(P + "cbind[two other frames]", two_others, _cbind2, _cbind2_expect, kinds=("int", "float"))
+
+
+# ---- C05: joins against the relational definition ---------------------------------------------------
+def join_inputs(run):
+    """pairs of small frames: key column k (kind int/float/str incl. missing + duplicates), payload columns"""
+    mr = 3 if run.tier == "thorough" else 2
+    pools = {"float": [0.5, NAN, 1.5], "str": ["", "a", "b"], "int": [0, 1]}
+    for kind, pool in pools.items():
+        for n1 in range(mr + 1):
+            for n2 in range(mr + 1):
+                for ka in itertools.product(pool, repeat=n1):
+                    for kb in itertools.product(pool, repeat=n2):
+                        yield kind, enc(list(ka)), enc(list(kb))
+
+
+def mk_join_frames(kind, ka, kb, renamed=False):
+    ka, kb = dec(ka), dec(kb)
+    a = DataFrame(k=mkcol(kind, ka), x=Vector([10 * i for i in range(len(ka))], int))
+    b = DataFrame(**{("k2" if renamed else "k"): mkcol(kind, kb), "y": Vector([100 + i for i in range(len(kb))], int),
+                     "x": Vector([-1] * len(kb), int)})
+    return a, b
+
+
+def first_match(a, b, i, rk="k"):
+    x = a.k[i]
+    for j in range(b.nrow):
+        y = b[rk][j]
+        if not is_missing(y) and bool(x == y):
+            return j
+    return None
+
+
+def join_driver(name, kindj, renamed=False):
+    @driver(name)
+    def _d(run):
+        run.bound = "pairs of frames with 0-2 (thorough: 0-3) rows, key column over {value, value, missing} for float/str/int, duplicate keys on both sides"
+        rk = "k2" if renamed else "k"
+        by = ("k", "k2") if renamed else "k"
+        for kind, ka, kb in run.inputs(join_inputs(run)):
+            a, b = mk_join_frames(kind, ka, kb, renamed)
+            sa, sb = snapshot(a), snapshot(b)
+            m = [first_match(a, b, i, rk) for i in range(a.nrow)]
+            try:
+                if kindj == "left":
+                    got = a.left_join(b, by)
+                    ok = got.colnames == ["k", "x", "y"] and list(got.x) == list(a.x) and col_eq(got.k, a.k) and got.nrow == a.nrow
+                    for i in range(a.nrow):
+                        ok = ok and ((m[i] is None and is_missing(got.y[i])) or (m[i] is not None and got.y[i] == b.y[m[i]]))
+                elif kindj == "inner":
+                    got = a.inner_join(b, by)
+                    keep = [i for i in range(a.nrow) if m[i] is not None]
+                    ok = got.colnames == ["k", "x", "y"] and list(got.x) == [a.x[i] for i in keep] and list(got.y) == [b.y[m[i]] for i in keep]
+                elif kindj in ("semi", "anti"):
+                    got = a.semi_join(b, by) if kindj == "semi" else a.anti_join(b, by)
+                    keep = [i for i in range(a.nrow) if (m[i] is not None) == (kindj == "semi")]
+                    ok = frame_rows_are(got, a, keep)
+                else:
+                    got = a.full_join(b, by)
+                    ok = isinstance(got, DataFrame)
+                    gx = list(got.x) if "x" in got else []
+                    # every left row at least once
+                    ok = ok and all(any(cell_eq(got.x[t], a.x[i]) or got.x[t] == a.x[i] for t in range(got.nrow)) for i in range(a.nrow))
+                    # every right row at least once
+                    ok = ok and all(any((not is_missing(got.y[t])) and got.y[t] == b.y[j] for t in range(got.nrow)) for j in range(b.nrow))
+                    # never pairs rows with unequal keys: a row carrying a left x and a right y has equal keys
+                    for t in range(got.nrow):
+                        if not is_missing(got.y[t]) and got.x[t] in list(a.x):
+                            i, j = list(a.x).index(got.x[t]), list(b.y).index(got.y[t])
+                            if got.x[t] >= 0 and not is_missing(got.x[t]):
+                                ok = ok and (not is_missing(b[rk][j])) and bool(a.k[i] == b[rk][j])
+                ok = ok and snapshot(a) == sa and snapshot(b) == sb and no_shared(got, a, b)
+                obs = {c: list(got[c]) for c in got.colnames}
+            except Exception as e:
+                ok, obs = False, f"raised {type(e).__name__}: {e}"
+            run.check([kind, ka, kb], ok, expected=f"first matches {m}", got=obs, clause=f"{kindj}_join")
+    return _d
+
+
+join_driver(P + "left_join[one same-named key]", "left")
+join_driver(P + "left_join[one key named differently on the two sides]", "left", renamed=True)
+join_driver(P + "inner_join[one same-named key]", "inner")
+join_driver(P + "semi_join[one same-named key]", "semi")
+join_driver(P + "anti_join[one same-named key]", "anti")
+join_driver(P + "semi_join[key named differently]", "semi", renamed=True)
+join_driver(P + "full_join[bounded only]", "full")
